@@ -153,7 +153,7 @@ def monitor(ops, outs):
     if kind not in ("rate", "set"):
         return []
     if broken:
-        return ["broken: line %d: %s" % broken]
+        return [] if broken[1].startswith("uninterpretable") else ["broken: line %d: %s" % broken]   # a line the parser cannot read is left to the model/impl diff
     rates = rc.parse_rates(cfg[2])
     if any(e.rates for e in evs):
         cut = min(e.idx for e in evs if e.rates)
